@@ -67,7 +67,7 @@ func init() {
 	prop("C08",
 		"(epc.coverage) every field the from-scratch constructor computes is refreshed by RotateEpochs, and the genesis context computes the phase0 subset; (epc.upkeep) rotation shifts previous<-current<-next, computes next for current+1, sync committees follow the period test and are loaded on the altair upgrade; (slots.order) rotation happens after SetSlot at epoch ends; (cache.deposit) the pubkey cache grows with each new validator and the returned handle is kept; (epc.shared) shared sub-structures are never written after construction, so a cloned context is independent.",
 		"value equality of the incremental and the from-scratch context along histories.",
-		"epc.coverage", "epc.upkeep", "epc.shared", "slots.order", "cache.deposit")
+		"epc.coverage", "epc.upkeep", "epc.shared", "assert.reach", "slots.order", "cache.deposit")
 	prop("C12",
 		"(gossip.mark) seen-caches are marked only where nothing but ACCEPT can follow, and every ACCEPT passes the mark of each key the validator consults; (gossip.verdict) every refusal carries the verdict class of its governing outcome (timing/availability => IGNORE, validity => REJECT), no refusal branch accepts, ACCEPT is the final unconditional return; (bls.verify) the ten verification sites the validators reach check the whole root under the spec's domain; (err.flow) a swallowed error cannot fall through to ACCEPT; (args.order).",
 		"completeness of each validator against the p2p spec's full condition list beyond the tabled outcomes; exact clock-window arithmetic.",
